@@ -1,6 +1,7 @@
 package core
 
 import (
+	"go/constant"
 	"go/token"
 	"go/types"
 
@@ -28,6 +29,8 @@ type PathQuery struct {
 	Fn       *ssa.Function
 	CutInstr func(ssa.Instruction) bool // instructions that block the path (the path may not pass *through* them)
 	CutEdge  func(Edge) bool            // edges that may not be taken
+	Inter    int                        // follow static calls into same-package functions up to this depth (0: DefaultInter; <0: never)
+	Into     func(*ssa.Function) bool   // with Inter: which callees to follow (nil: all of the package)
 }
 
 // instrIndex returns the index of instr in its block.
@@ -40,24 +43,91 @@ func instrIndex(in ssa.Instruction) int {
 	return -1
 }
 
+// DefaultInter is the depth to which path queries that do not set Inter themselves follow static calls into
+// functions of the same package (0 = stay inside Fn).
+var DefaultInter = 2
+
 // reach explores from the point *after* instruction `from` (or from function
 // entry if from == nil) and calls visit on every instruction reached (cut
 // instructions are visited but not passed).  visit returning true stops.
+//
+// With Inter > 0 the exploration follows static calls into functions of the same package (not recursive ones)
+// up to that depth and comes back to the instruction after the call when the callee returns: a step extracted
+// into a helper lies on the path like the statements it replaced.  Return instructions of callees are internal
+// to the path and are not shown to visit.  Call strings are kept, so a helper called from two sites does not
+// mix their continuations.
 func (q PathQuery) reach(from ssa.Instruction, visit func(ssa.Instruction) bool) bool {
-	type pt struct {
-		b *ssa.BasicBlock
-		i int
+	depth := q.Inter
+	if depth == 0 {
+		depth = DefaultInter
 	}
-	seenBlockStart := map[*ssa.BasicBlock]bool{}
+	if depth < 0 {
+		depth = 0
+	}
+	type frame struct {
+		call   *ssa.Call
+		parent *frame
+		depth  int
+	}
+	type pt struct {
+		b   *ssa.BasicBlock
+		i   int
+		fr  *frame
+		cor *correlation
+	}
+	type key struct {
+		b   *ssa.BasicBlock
+		fr  *frame
+		cor *correlation
+	}
+	cors := map[[2]interface{}]*correlation{}
+	corFor := func(c *ssa.Call, ret *ssa.Return) *correlation {
+		k := [2]interface{}{c, ret}
+		if x, ok := cors[k]; ok {
+			return x
+		}
+		x := &correlation{cut: returnCorrelation(c, ret)}
+		if len(x.cut) == 0 {
+			x = nil
+		}
+		cors[k] = x
+		return x
+	}
+	frames := map[[2]interface{}]*frame{}
+	frameFor := func(parent *frame, c *ssa.Call) *frame {
+		k := [2]interface{}{parent, c}
+		if f, ok := frames[k]; ok {
+			return f
+		}
+		d := 1
+		if parent != nil {
+			d = parent.depth + 1
+		}
+		f := &frame{call: c, parent: parent, depth: d}
+		frames[k] = f
+		return f
+	}
+	onStack := func(fr *frame, fn *ssa.Function) bool {
+		if fn == q.Fn {
+			return true
+		}
+		for f := fr; f != nil; f = f.parent {
+			if StaticFn(f.call.Common()) == fn {
+				return true
+			}
+		}
+		return false
+	}
+	seenBlockStart := map[key]bool{}
 	var stack []pt
 	if from == nil {
 		if len(q.Fn.Blocks) == 0 {
 			return false
 		}
-		stack = append(stack, pt{q.Fn.Blocks[0], 0})
-		seenBlockStart[q.Fn.Blocks[0]] = true
+		stack = append(stack, pt{q.Fn.Blocks[0], 0, nil, nil})
+		seenBlockStart[key{q.Fn.Blocks[0], nil, nil}] = true
 	} else {
-		stack = append(stack, pt{from.Block(), instrIndex(from) + 1})
+		stack = append(stack, pt{from.Block(), instrIndex(from) + 1, nil, nil})
 	}
 	for len(stack) > 0 {
 		p := stack[len(stack)-1]
@@ -66,12 +136,54 @@ func (q PathQuery) reach(from ssa.Instruction, visit func(ssa.Instruction) bool)
 		blocked := false
 		for i := p.i; i < len(b.Instrs); i++ {
 			in := b.Instrs[i]
+			if ret, isRet := in.(*ssa.Return); isRet && p.fr != nil {
+				// back to the caller, after the call; what the callee returns as its error decides which way the
+				// caller's test of that error can go on this path
+				c := p.fr.call
+				cor := p.cor
+				if nc := corFor(c, ret); nc != nil {
+					cor = nc
+				}
+				stack = append(stack, pt{c.Block(), instrIndex(c) + 1, p.fr.parent, cor})
+				blocked = true
+				break
+			} else if isRet && depth > 0 && b.Parent() != q.Fn && b.Parent().Parent() == nil {
+				// the exploration started inside a callee of Fn (an instruction found there by FindInstrs): it goes on
+				// after every call of that callee in Fn and the functions Fn reaches
+				for _, m := range Family(q.Fn, depth) {
+					for _, mb := range m.Blocks {
+						for mi, x := range mb.Instrs {
+							if c, ok := x.(*ssa.Call); ok && StaticFn(c.Common()) == b.Parent() {
+								stack = append(stack, pt{mb, mi + 1, nil, nil})
+							}
+						}
+					}
+				}
+				blocked = true
+				break
+			}
 			if visit(in) {
 				return true
 			}
 			if q.CutInstr != nil && q.CutInstr(in) {
 				blocked = true
 				break
+			}
+			if c, isCall := in.(*ssa.Call); isCall && depth > 0 {
+				cur := 0
+				if p.fr != nil {
+					cur = p.fr.depth
+				}
+				if callee := StaticFn(c.Common()); callee != nil && cur < depth && len(callee.Blocks) > 0 && callee.Pkg != nil && callee.Pkg == q.Fn.Pkg && !onStack(p.fr, callee) && (q.Into == nil || q.Into(callee)) {
+					fr := frameFor(p.fr, c)
+					k := key{callee.Blocks[0], fr, p.cor}
+					if !seenBlockStart[k] {
+						seenBlockStart[k] = true
+						stack = append(stack, pt{callee.Blocks[0], 0, fr, p.cor})
+					}
+					blocked = true // the continuation is taken when (and if) the callee returns
+					break
+				}
 			}
 		}
 		if blocked {
@@ -81,13 +193,240 @@ func (q PathQuery) reach(from ssa.Instruction, visit func(ssa.Instruction) bool)
 			if q.CutEdge != nil && q.CutEdge(Edge{b, si}) {
 				continue
 			}
-			if !seenBlockStart[s] {
-				seenBlockStart[s] = true
-				stack = append(stack, pt{s, 0})
+			if p.cor != nil && p.cor.cuts(Edge{b, si}) {
+				continue
+			}
+			k := key{s, p.fr, p.cor}
+			if !seenBlockStart[k] {
+				seenBlockStart[k] = true
+				stack = append(stack, pt{s, 0, p.fr, p.cor})
 			}
 		}
 	}
 	return false
+}
+
+// correlation: edges that cannot be taken on the rest of a path because of what a callee returned on it.
+type correlation struct{ cut []Edge }
+
+func (c *correlation) cuts(e Edge) bool {
+	for _, x := range c.cut {
+		if x == e {
+			return true
+		}
+	}
+	return false
+}
+
+// errorResultState: +1 when the last (error) result of the return is certainly non-nil (a constructed error, or a
+// value returned on the edge where it was tested non-nil), -1 when it is the nil constant, 0 otherwise.
+func errorResultState(ret *ssa.Return) int {
+	vals := ReturnValues(ret)
+	if len(vals) == 0 {
+		return 0
+	}
+	v := vals[len(vals)-1]
+	if !isErrorType(v.Type()) {
+		return 0
+	}
+	switch x := v.(type) {
+	case *ssa.Const:
+		if x.IsNil() {
+			return -1
+		}
+	case *ssa.MakeInterface:
+		return +1
+	case *ssa.Call:
+		if cl := CommonCallee(x.Common()); cl != nil {
+			switch cl.Name() {
+			case "Errorf", "New", "NewError", "Error", "Wrap", "Wrapf", "NewErrInvalidArg", "NewRetryableErr":
+				if cl.Name() != "Error" || (cl.Pkg() != nil && cl.Pkg().Name() == "status") {
+					return +1
+				}
+			}
+		}
+	}
+	// returned on the edge where it was found non-nil
+	for d := ret.Block(); d != nil; d = d.Idom() {
+		idom := d.Idom()
+		if idom == nil || len(d.Preds) != 1 || d.Preds[0] != idom {
+			continue
+		}
+		ifi, ok := idom.Instrs[len(idom.Instrs)-1].(*ssa.If)
+		if !ok {
+			continue
+		}
+		c, neg := StripNot(ifi.Cond)
+		bo, ok := c.(*ssa.BinOp)
+		if !ok || (bo.Op != token.NEQ && bo.Op != token.EQL) {
+			continue
+		}
+		if k, isK := bo.Y.(*ssa.Const); !isK || !k.IsNil() {
+			continue
+		}
+		if bo.X != v && ResolveCell(bo.X) != v {
+			continue
+		}
+		nonNilIdx := 0
+		if (bo.Op == token.EQL) != neg {
+			nonNilIdx = 1
+		}
+		if idom.Succs[nonNilIdx] == d {
+			return +1
+		}
+		return -1
+	}
+	return 0
+}
+
+// returnCorrelation: the edges of the caller that cannot be taken after the callee left through ret: tests of the
+// call's error result against nil when the returned error is certainly nil / non-nil, and tests of a result
+// against a constant (or of a boolean result itself) when the callee returned a constant there.
+func returnCorrelation(c *ssa.Call, ret *ssa.Return) []Edge {
+	var out []Edge
+	switch errorResultState(ret) {
+	case +1:
+		out = append(out, errTestEdges(c, true)...)
+	case -1:
+		out = append(out, errTestEdges(c, false)...)
+	}
+	vals := ReturnValues(ret)
+	resultUses := func(i int) []ssa.Value {
+		if len(vals) == 1 {
+			return []ssa.Value{c}
+		}
+		var xs []ssa.Value
+		for _, ref := range *c.Referrers() {
+			if ex, ok := ref.(*ssa.Extract); ok && ex.Index == i {
+				xs = append(xs, ex)
+			}
+		}
+		return xs
+	}
+	for i, v := range vals {
+		k, ok := v.(*ssa.Const)
+		if !ok || isErrorType(v.Type()) {
+			continue
+		}
+		for _, rv := range resultUses(i) {
+			for _, ref := range *rv.Referrers() {
+				switch x := ref.(type) {
+				case *ssa.If:
+					// a boolean result tested directly
+					if k.Value != nil && k.Value.Kind() == constant.Bool {
+						if constant.BoolVal(k.Value) {
+							out = append(out, Edge{x.Block(), 1})
+						} else {
+							out = append(out, Edge{x.Block(), 0})
+						}
+					}
+				case *ssa.UnOp:
+					if x.Op == token.NOT && k.Value != nil && k.Value.Kind() == constant.Bool {
+						for _, r2 := range *x.Referrers() {
+							if ifi, ok := r2.(*ssa.If); ok {
+								if constant.BoolVal(k.Value) {
+									out = append(out, Edge{ifi.Block(), 0})
+								} else {
+									out = append(out, Edge{ifi.Block(), 1})
+								}
+							}
+						}
+					}
+				case *ssa.BinOp:
+					if x.Op != token.EQL && x.Op != token.NEQ {
+						continue
+					}
+					var other ssa.Value
+					if x.X == rv {
+						other = x.Y
+					} else {
+						other = x.X
+					}
+					ok2, isK := other.(*ssa.Const)
+					if !isK {
+						continue
+					}
+					var equal bool
+					switch {
+					case k.Value == nil || ok2.Value == nil:
+						equal = k.Value == nil && ok2.Value == nil
+					default:
+						equal = constant.Compare(k.Value, token.EQL, ok2.Value)
+					}
+					holds := equal == (x.Op == token.EQL)
+					for _, r2 := range *x.Referrers() {
+						if ifi, ok := r2.(*ssa.If); ok {
+							if holds {
+								out = append(out, Edge{ifi.Block(), 1})
+							} else {
+								out = append(out, Edge{ifi.Block(), 0})
+							}
+						}
+					}
+				}
+			}
+		}
+	}
+	return out
+}
+
+// errTestEdges: the edges of the caller's tests `err != nil` / `err == nil` of the call's error result that stand
+// for "the error is nil" (wantNil) or "is not nil" (!wantNil).
+func errTestEdges(c *ssa.Call, wantNil bool) []Edge {
+	var errv []ssa.Value
+	if isErrorType(c.Type()) {
+		errv = append(errv, c)
+	} else {
+		for _, ref := range *c.Referrers() {
+			if ex, ok := ref.(*ssa.Extract); ok && isErrorType(ex.Type()) {
+				errv = append(errv, ex)
+			}
+		}
+	}
+	var out []Edge
+	for _, v := range errv {
+		// the value may be tested directly, or after being stored in a local cell
+		vals := []ssa.Value{v}
+		for _, ref := range *v.Referrers() {
+			if st, ok := ref.(*ssa.Store); ok && st.Val == v {
+				if al, ok := st.Addr.(*ssa.Alloc); ok {
+					for _, ar := range *al.Referrers() {
+						if u, ok := ar.(*ssa.UnOp); ok && u.Op == token.MUL && u.Block() == st.Block() {
+							vals = append(vals, u)
+						}
+					}
+				}
+			}
+		}
+		for _, tv := range vals {
+			for _, ref := range *tv.Referrers() {
+				bo, ok := ref.(*ssa.BinOp)
+				if !ok || (bo.Op != token.NEQ && bo.Op != token.EQL) {
+					continue
+				}
+				k, isK := bo.Y.(*ssa.Const)
+				if !isK || !k.IsNil() || bo.X != tv {
+					continue
+				}
+				for _, br := range *bo.Referrers() {
+					ifi, ok := br.(*ssa.If)
+					if !ok {
+						continue
+					}
+					nilIdx := 1
+					if bo.Op == token.EQL {
+						nilIdx = 0
+					}
+					if wantNil {
+						out = append(out, Edge{ifi.Block(), nilIdx})
+					} else {
+						out = append(out, Edge{ifi.Block(), 1 - nilIdx})
+					}
+				}
+			}
+		}
+	}
+	return out
 }
 
 // IsNormalExit reports whether the instruction ends the function normally.
@@ -235,7 +574,129 @@ func Instrs(fn *ssa.Function, f func(ssa.Instruction)) {
 }
 
 // FindInstrs collects instructions satisfying pred.
+//
+// When nothing in fn matches and DeepFind > 0, the functions of the same package that fn calls statically (to
+// that depth, closures excluded) are searched instead: a rule looking for "the call to X in F" finds it in the
+// helper a step of F was extracted into, and keeps answering its path questions through PathQuery.Inter.  The
+// fallback only ever applies where the search in fn itself found nothing.
 func FindInstrs(fn *ssa.Function, pred func(ssa.Instruction) bool) []ssa.Instruction {
+	var out []ssa.Instruction
+	Instrs(fn, func(in ssa.Instruction) {
+		if pred(in) {
+			out = append(out, in)
+		}
+	})
+	if (len(out) == 0 || DeepAlways) && DeepFind > 0 && fn != nil && fn.Parent() == nil {
+		for _, m := range Family(fn, DeepFind) {
+			if m == fn || m.Parent() != nil {
+				continue
+			}
+			Instrs(m, func(in ssa.Instruction) {
+				if pred(in) {
+					out = append(out, in)
+				}
+			})
+		}
+	}
+	return out
+}
+
+// SiteIn maps an instruction found in a callee of fn (FindInstrs's fallback) to the instruction of fn through
+// which it is reached: the call, in fn or one of its closures, to the function holding it (directly or through one
+// more call).  An instruction of fn itself is returned unchanged; nil when no such call exists.
+func SiteIn(fn *ssa.Function, in ssa.Instruction) ssa.Instruction {
+	holder := in.Parent()
+	for holder != nil && holder.Parent() != nil && holder != fn {
+		holder = holder.Parent()
+	}
+	if holder == fn || in.Parent() == fn {
+		return in
+	}
+	var res ssa.Instruction
+	for _, m := range WithClosures(fn) {
+		Instrs(m, func(x ssa.Instruction) {
+			ci, ok := x.(ssa.CallInstruction)
+			if !ok || res != nil {
+				return
+			}
+			c := StaticFn(ci.Common())
+			if c == nil {
+				return
+			}
+			if c == holder {
+				res = x
+				return
+			}
+			// one more level
+			if c.Pkg == fn.Pkg && c.Blocks != nil {
+				Instrs(c, func(y ssa.Instruction) {
+					if cj, ok := y.(ssa.CallInstruction); ok && StaticFn(cj.Common()) == holder && res == nil {
+						res = x
+					}
+				})
+			}
+		})
+	}
+	return res
+}
+
+// InstrsDeep calls f for the instructions of fn and of the functions of its package that it calls statically, to
+// the depth of DeepFind (closures of fn included, as with Family).
+func InstrsDeep(fn *ssa.Function, f func(ssa.Instruction)) {
+	for _, m := range Family(fn, DeepFind) {
+		Instrs(m, f)
+	}
+}
+
+// CallerValue reads a value of a helper in terms of fn: a parameter of a function that fn's family calls from
+// exactly one site stands for the argument passed there (transitively); any other value is returned unchanged.
+func CallerValue(fn *ssa.Function, v ssa.Value) ssa.Value {
+	for i := 0; i < 3; i++ {
+		// a parameter spilled to a local cell (its address is taken somewhere) is read through the cell
+		if u, ok := SkipConv(v).(*ssa.UnOp); ok && u.Op == token.MUL {
+			if al, ok := u.X.(*ssa.Alloc); ok && al.Parent() != fn {
+				var stored []ssa.Value
+				for _, ref := range *al.Referrers() {
+					if st, ok := ref.(*ssa.Store); ok && st.Addr == ssa.Value(al) {
+						stored = append(stored, st.Val)
+					}
+				}
+				if len(stored) == 1 {
+					if sp, ok := stored[0].(*ssa.Parameter); ok {
+						v = sp
+					}
+				}
+			}
+		}
+		prm, ok := SkipConv(v).(*ssa.Parameter)
+		if !ok || prm.Parent() == fn || prm.Parent() == nil {
+			return v
+		}
+		h := prm.Parent()
+		idx := -1
+		for k, hp := range h.Params {
+			if hp == prm {
+				idx = k
+			}
+		}
+		var sites []ssa.CallInstruction
+		for _, m := range Family(fn, DeepFind) {
+			Instrs(m, func(in ssa.Instruction) {
+				if ci, ok := in.(ssa.CallInstruction); ok && StaticFn(ci.Common()) == h {
+					sites = append(sites, ci)
+				}
+			})
+		}
+		if idx < 0 || len(sites) != 1 || idx >= len(sites[0].Common().Args) {
+			return v
+		}
+		v = sites[0].Common().Args[idx]
+	}
+	return v
+}
+
+// FindInstrsIn is FindInstrs restricted to fn's own body (no callees).
+func FindInstrsIn(fn *ssa.Function, pred func(ssa.Instruction) bool) []ssa.Instruction {
 	var out []ssa.Instruction
 	Instrs(fn, func(in ssa.Instruction) {
 		if pred(in) {
@@ -244,6 +705,12 @@ func FindInstrs(fn *ssa.Function, pred func(ssa.Instruction) bool) []ssa.Instruc
 	})
 	return out
 }
+
+// DeepFind is the depth of FindInstrs's fallback into callees of the same package (0 = none).
+var DeepFind = 2
+
+// DeepAlways (experiment): search the callees even when fn itself has matches.
+var DeepAlways = true
 
 // WithClosures returns fn and all functions nested in it (transitively).
 func WithClosures(fn *ssa.Function) []*ssa.Function {
